@@ -24,9 +24,6 @@ type Conn struct {
 	// For preventing races on (dis)connect.
 	mu sync.RWMutex
 
-	// Held by a Connect call until its REGISTER event has been dispatched.
-	regMu sync.Mutex
-
 	// Contains parameters that people can tweak to change client behaviour.
 	cfg *Config
 
@@ -398,13 +395,6 @@ func (conn *Conn) ConnectContext(ctx context.Context) error {
 	// We don't want to hold conn.mu while firing the REGISTER event,
 	// and it's much easier and less error prone to defer the unlock,
 	// so the connect mechanics have been delegated to internalConnect.
-	//
-	// Connects are serialised up to and including their REGISTER event:
-	// if the link drops at once and the client is reconnected (say from a
-	// DISCONNECTED handler) while REGISTER handlers are still sending, their
-	// lines would otherwise end up on the new connection.
-	conn.regMu.Lock()
-	defer conn.regMu.Unlock()
 	err := conn.internalConnect(ctx)
 	if err == nil {
 		conn.dispatch(&Line{Cmd: REGISTER, Time: time.Now()})
@@ -465,6 +455,16 @@ func (conn *Conn) internalConnect(ctx context.Context) error {
 
 	conn.postConnect(ctx, true)
 	conn.setConnected(true)
+
+	// Register with the server while conn.mu is still held. If the link
+	// drops at once, the teardown (and a reconnect from a DISCONNECTED
+	// handler or a goroutine polling Connected()) cannot start before these
+	// few lines are queued, so they can never end up on the next connection.
+	line := &Line{Cmd: REGISTER, Time: time.Now()}
+	func() {
+		defer conn.cfg.Recover(conn, line)
+		conn.h_REGISTER(line)
+	}()
 	return nil
 }
 
